@@ -364,6 +364,10 @@ func C18(rep *ev.Reporter, tier string) {
 			}
 		}
 	}
+	for _, lit := range []string{`"a  b"`, `"a   b "`, `" lead"`, "\"tab\there\"", "\"nb\u00a0sp\"", `"x y"`} {
+		cases = append(cases, c18Case{id: fmt.Sprintf("c18/plain-string-whitespace/%d", len(cases)), when: "K.K == 0", then: []interface{}{"K.S = " + lit, "K.K = 1"}, class: "plain-string-whitespace"})
+		cases = append(cases, c18Case{id: fmt.Sprintf("c18/plain-string-whitespace/%d", len(cases)), when: "K.K == 0 && " + lit + " != \"q\"", then: []interface{}{"K.S = " + lit + " + \"|\"", "K.K = 1"}, class: "plain-string-whitespace"})
+	}
 	addWhen("plain-string-operand-in-and", jm("and", "F.B", jm("eq", "F.I", 5.0)))
 	addWhen("plain-bool-operand-in-or", jm("or", false, jm("eq", "F.I", 5.0)))
 
